@@ -45,6 +45,7 @@ verus! {
 //@extract-type src/journal/batch_reader.rs :: Batch
 //@extract-type src/journal/batch_reader.rs :: JournalBatchReader
 //@include spec/batch_reader_spec.rs
+//@include spec/roundtrip.rs
 
 //@extract src/journal/batch_reader.rs :: JournalBatchReader :: truncate_to world props=C03+C02+C09
 //@contract-file fn/breader_truncate_to.c
